@@ -60,11 +60,13 @@ struct Shapes {
     opt_prio: Option<Priority>,
     #[deb822(field = "Signed")]
     signed: i64,
+    /// a field whose name is a keyword: its default key is the name, `type`
+    r#type: Option<String>,
 }
 
-const SHAPES_KEYS: [(&str, bool); 11] = [
+const SHAPES_KEYS: [(&str, bool); 12] = [
     ("name", true), ("Count", true), ("flag", true), ("Item-List", true), ("prio", true), ("opt", false), ("X-Opt-Num", false),
-    ("opt_flag", false), ("Opt-List", false), ("Opt-Prio", false), ("Signed", true),
+    ("opt_flag", false), ("Opt-List", false), ("Opt-Prio", false), ("Signed", true), ("type", false),
 ];
 
 fn gen_text(r: &mut Rng, uniq: &mut u32) -> String {
@@ -95,6 +97,7 @@ fn gen_shapes(r: &mut Rng) -> Shapes {
         opt_list: if r.chance(1, 2) { Some(vec!["a".into(), "b c".into()]) } else { None },
         opt_prio: if r.chance(1, 2) { Some(r.pick(&prios).clone()) } else { None },
         signed: *r.pick(&[0, -1, i64::MIN, i64::MAX]),
+        r#type: if r.chance(1, 2) { Some(["deb", "udeb"][r.below(2)].to_string()) } else { None },
     }
 }
 
@@ -429,10 +432,10 @@ fn errors_lane(ctx: &mut Ctx, idx: u64) {
     // the harness-local struct: 40 probes
     let v = gen_shapes(&mut r);
     let p: lossy::Paragraph = v.to_paragraph();
-    let (key, mandatory) = SHAPES_KEYS[(n % 11) as usize];
+    let (key, mandatory) = SHAPES_KEYS[(n as usize) % SHAPES_KEYS.len()];
     let mut pairs = items_lossy(&p);
-    let what = if n < 11 { "missing" } else { "invalid" };
-    if n < 11 {
+    let what = if (n as usize) < SHAPES_KEYS.len() { "missing" } else { "invalid" };
+    if (n as usize) < SHAPES_KEYS.len() {
         pairs.retain(|(k, _)| k != key);
     } else {
         let bad = match key { "Count" | "X-Opt-Num" | "Signed" => "1x", "flag" | "opt_flag" => "maybe", "prio" | "Opt-Prio" => "bogus", _ => { ctx.count("skipped:field-accepts-any-text"); return; } };
